@@ -12,6 +12,7 @@ import (
 	"net"
 	"net/netip"
 	"os"
+	"path/filepath"
 	"strings"
 	"time"
 
@@ -24,6 +25,8 @@ import (
 	"github.com/database64128/shadowsocks-go/zerocopy"
 	"go.uber.org/zap"
 
+	"verif/harness"
+	vcontext "verif/shim/vcontext"
 	"verif/shim/vsync"
 	"verif/vnet/vudp"
 	"verif/vsched"
@@ -31,6 +34,24 @@ import (
 
 // PSK is the key used by SS2022 servers and harness clients.
 var PSK = []byte("0123456789abcdef")
+
+// UserPSK are the users of a multi-user (ss2022mu) server; harness client i is alice when i is even, bob when odd.
+var UserPSK = map[string][]byte{"alice": []byte("alice-upsk-16byt"), "bob": []byte("bob---upsk-16byt")}
+
+var upskPath string
+
+// upskStore writes the uPSK store file once per process (removed when the harness exits).
+func upskStore() string {
+	if upskPath == "" {
+		dir := harness.TempDir("upsk")
+		upskPath = filepath.Join(dir, "upsks.json")
+		b, _ := json.Marshal(UserPSK)
+		if err := os.WriteFile(upskPath, b, 0o600); err != nil {
+			panic(err)
+		}
+	}
+	return upskPath
+}
 
 // UpstreamPSK is the key between the relay's outgoing SS2022 client and the harness upstream.
 var UpstreamPSK = []byte("fedcba9876543210")
@@ -56,6 +77,7 @@ type Env struct {
 	Services []shadowsocks.Service
 	Server   netip.AddrPort
 	started  []shadowsocks.Service
+	cancel   context.CancelFunc
 	Tunnel   netip.AddrPort
 	Upstream netip.AddrPort // address of the harness upstream proxy (outgoing clients other than direct)
 	// Collector is the real statistics collector the UDP relays record into.
@@ -76,7 +98,7 @@ func New(sp Spec) (*Env, error) {
 		listen = fmt.Sprintf("0.0.0.0:%d", e.Server.Port())
 	}
 	e.Tunnel = netip.AddrPortFrom(e.IP(101), 7000)
-	proto := map[string]string{"direct": "direct", "none": "none", "socks5": "socks5", "ss2022": "2022-blake3-aes-128-gcm"}[sp.Server]
+	proto := map[string]string{"direct": "direct", "none": "none", "socks5": "socks5", "ss2022": "2022-blake3-aes-128-gcm", "ss2022mu": "2022-blake3-aes-128-gcm"}[sp.Server]
 	if proto == "" {
 		return nil, fmt.Errorf("unknown server protocol %q", sp.Server)
 	}
@@ -93,6 +115,10 @@ func New(sp Spec) (*Env, error) {
 		srv["tunnelUDPTargetOnly"] = sp.TargetOnly
 	case "ss2022":
 		srv["psk"] = base64.StdEncoding.EncodeToString(PSK)
+	case "ss2022mu":
+		// multi-user: PSK is the identity key; users alice and bob come from a uPSK store file
+		srv["psk"] = base64.StdEncoding.EncodeToString(PSK)
+		srv["uPSKStorePath"] = upskStore()
 	}
 	e.Upstream = netip.AddrPortFrom(e.IP(200), 8000)
 	cl := map[string]any{"name": "c", "protocol": "direct", "network": "ip4", "enableUDP": true, "mtu": 1500}
@@ -137,6 +163,8 @@ func New(sp Spec) (*Env, error) {
 
 // Start starts every service in order.
 func (e *Env) Start(ctx context.Context) error {
+	// as service.Manager.Run: the services run under a context that is cancelled before they are stopped
+	ctx, e.cancel = vcontext.WithCancel(ctx)
 	for _, s := range e.Services {
 		if err := s.Start(ctx); err != nil {
 			return err
@@ -148,6 +176,9 @@ func (e *Env) Start(ctx context.Context) error {
 
 // Stop stops every started service.
 func (e *Env) Stop() {
+	if e.cancel != nil {
+		e.cancel()
+	}
 	for _, s := range e.started {
 		s.Stop()
 	}
@@ -176,6 +207,8 @@ type Client struct {
 	front int
 	raw   bool
 	Name  string
+	// User is the client's user name on a multi-user server.
+	User string
 	// Via is the relay address this client talks to (the listener's address, or one of the local addresses
 	// of a wildcard listener); replies must come from exactly this address.
 	Via netip.AddrPort
@@ -190,7 +223,7 @@ func (e *Env) NewClient(i int, port uint16) *Client {
 // clients may share one IP address and differ only in the port).
 func (e *Env) NewClientAt(i int, ipLast byte, port uint16) *Client {
 	addr := netip.AddrPortFrom(e.IP(ipLast), 6000+port)
-	c := &Client{e: e, Addr: addr, Name: fmt.Sprintf("client%d", i), Via: e.Server}
+	c := &Client{e: e, Addr: addr, Name: fmt.Sprintf("client%d", i), Via: e.Server, User: []string{"alice", "bob"}[i%2]}
 	c.Sock = vudp.Listen(addr.String(), c.Name)
 	c.newSession()
 	return c
@@ -199,7 +232,7 @@ func (e *Env) NewClientAt(i int, ipLast byte, port uint16) *Client {
 // NewClientVia opens harness client i talking to the wildcard listener through local address 127.A.B.viaLast.
 func (e *Env) NewClientVia(i int, viaLast byte) *Client {
 	addr := netip.AddrPortFrom(e.IP(byte(10+i)), 6000)
-	c := &Client{e: e, Addr: addr, Name: fmt.Sprintf("client%d", i), Via: netip.AddrPortFrom(e.IP(viaLast), e.Server.Port())}
+	c := &Client{e: e, Addr: addr, Name: fmt.Sprintf("client%d", i), Via: netip.AddrPortFrom(e.IP(viaLast), e.Server.Port()), User: []string{"alice", "bob"}[i%2]}
 	c.Sock = vudp.Listen(addr.String(), c.Name)
 	c.newSession()
 	return c
@@ -219,6 +252,16 @@ func (c *Client) newSession() {
 	case "socks5":
 		c.sess = zerocopy.UDPClientSession{MaxPacketSize: 1472, Packer: direct.NewSocks5PacketClientPacker(c.Via, 1472), Unpacker: direct.NewSocks5PacketClientUnpacker(c.Via)}
 		c.front = 300
+	case "ss2022mu":
+		ccc, err := ss2022.NewClientCipherConfig(UserPSK[c.User], [][]byte{PSK}, true)
+		if err != nil {
+			panic(err)
+		}
+		_, s, err := ss2022.NewUDPClient("h", "udp4", conn.AddrFromIPPort(c.Via), 1500, conn.ListenConfig{}, 0, ccc, ss2022.NoPadding).NewSession(context.Background())
+		if err != nil {
+			panic(err)
+		}
+		c.sess, c.front = s, 300
 	case "ss2022":
 		ccc, err := ss2022.NewClientCipherConfig(PSK, nil, true)
 		if err != nil {
